@@ -1,6 +1,158 @@
-(* C03 -- placeholder while the proofs are being developed; replaced below. *)
-From Coq Require Import List NArith.
-From WV Require Import Lib.PyBytes Model.Task Spec.ClientParse.
-Theorem C03_placeholder : forall n : N, n = n.
-Proof. reflexivity. Qed.
-Print Assumptions C03_placeholder.
+(* C03 -- Every response stream is well-framed and persistence is signalled
+   truthfully.  Statements only.  Proofs: Proof/TaskChunk.v (chunked coding
+   round trip), Proof/TaskFrame.v (the persistence decision table; too few
+   bytes close), Proof/TaskBody.v + Proof/TaskSimple.v (what a plain
+   application puts on the wire), Proof/TaskClient.v + Proof/TaskFrameClient.v
+   (the client of Spec/ClientParse.v reading it back), Proof/TaskFrameEnd.v
+   (end to end), Proof/TaskC09.v (failure after the head closes),
+   Proof/TaskC03.v (closed instances, witnesses). *)
+From Coq Require Import String.
+From Coq Require Import List NArith ZArith Bool.
+From WV Require Import Lib.PyBytes Gen.GenTables Model.Task Spec.ClientParse
+  Proof.TaskHead Proof.TaskStart Proof.TaskRun Proof.TaskChunk Proof.TaskClient Proof.TaskOracle
+  Proof.TaskC08 Proof.TaskC09 Proof.TaskFrame Proof.TaskBody Proof.TaskSimple Proof.TaskFrameClient
+  Proof.TaskFrameEnd Proof.TaskC03.
+Import ListNotations.
+Local Open Scope N_scope.
+
+(* hex(n)[2:].upper() is read back by int(s, 16), for every n *)
+Theorem C03_hex_roundtrip : forall n, hex_value (to_hex_upper n) = n.
+Proof. exact hex_roundtrip. Qed.
+Print Assumptions C03_hex_roundtrip.
+
+(* chunk_roundtrip: for every list of chunks (empty ones are skipped by
+   Task.write) the client decodes the emitted chunked body followed by
+   "0\r\n\r\n" to exactly their concatenation and stops exactly at its end,
+   whatever follows. *)
+Theorem C03_chunk_roundtrip : forall cs rest fuel, (length cs < fuel)%nat ->
+  decode_chunked fuel (encode_chunked cs ++ rest) = Some (concat cs, rest).
+Proof. exact chunk_roundtrip. Qed.
+Print Assumptions C03_chunk_roundtrip.
+
+(* The persistence decision table of build_response_header, complete: for a task
+   that has not decided to close yet and carries no Connection field, by HTTP
+   version x request Connection x the parser's connection_close verdict x
+   whether a Content-Length is known x whether the status has a body: exactly
+   which fields are added, close_on_finish and chunked_response. *)
+Theorem C03_decision_table : forall conn fc clh t,
+  t_cof t = false -> t_wrote_header t = false -> t_chunked t = false -> NoConn py_cap (t_rh t) ->
+  let t' := bh_conn py_cap py_lower conn fc clh t in
+  let '(add, cof, chk) := conn_table (t_v11 t) conn fc (truthy clh) (has_body t) in
+  t_rh t' = t_rh t ++ add /\ t_cof t' = cof /\ t_chunked t' = chk
+  /\ t_status t' = t_status t /\ t_clen t' = t_clen t /\ t_cbw t' = t_cbw t
+  /\ t_wrote_header t' = false /\ t_v11 t' = t_v11 t /\ t_complete t' = t_complete t.
+Proof. exact (bh_conn_table py_cap py_lower py_cap_te). Qed.
+Print Assumptions C03_decision_table.
+
+(* announce / keep, read off the table: when the decision is to close, the head
+   carries "Connection: close" and not "Keep-Alive"; when it is to keep, it
+   carries no "Connection: close" (1.1: nothing; 1.0: exactly "Keep-Alive");
+   chunked coding only for HTTP/1.1 without a known length and with a body, and
+   then the connection is also closed; and the decision is to close exactly for
+   HTTP/1.1 with Connection: close / connection_close / no known length, and for
+   HTTP/1.0 unless keep-alive was asked and a length is known. *)
+Theorem C03_announce_keep : forall v11 conn fc has_cl hb,
+  let '(add, cof, chk) := conn_table v11 conn fc has_cl hb in
+  (cof = true -> In f_close add /\ ~ In f_keep add)
+  /\ (cof = false -> ~ In f_close add /\ (if v11 then add = [] else add = [f_keep]))
+  /\ (chk = true -> v11 = true /\ has_cl = false /\ hb = true /\ In f_chunked add /\ cof = true)
+  /\ (cof = true <-> (if v11 then beqb conn (lit "close") || fc || negb has_cl
+                     else negb (beqb conn (lit "keep-alive") && negb fc && has_cl)) = true).
+Proof. exact (table_announce py_cap). Qed.
+Print Assumptions C03_announce_keep.
+
+(* close: the application produced a number of bytes different from the declared
+   Content-Length (non-HEAD, nothing raised, no hand-over): the connection is
+   closed, not reused.  (A failure after the head was sent closes: C09_outcome.) *)
+Theorem C03_close_too_few : forall c r a disc cl,
+  r_error r = None -> connected disc 0 = true ->
+  let res := run_task c r a disc in
+  o_raw res = None -> o_handover res = false -> o_iter res = true ->
+  t_clen (o_task1 res) = Some cl -> t_cbw (o_task1 res) <> cl -> r_head r = false ->
+  o_close res = true /\ o_next res = false.
+Proof. exact (fun c r a disc cl => too_few_closes py_cap py_lower c r disc a cl). Qed.
+Print Assumptions C03_close_too_few.
+
+(* frame, client side: for every prepared clean task whose field names contain no
+   colon, the client reads back the status line and the fields, and
+   - chunked: decodes exactly the application's bytes and stops at the end;
+   - no Transfer-Encoding / Content-Length: takes everything up to EOF;
+   - HEAD / 1xx / 204 / 304: no body, nothing consumed after the head. *)
+Theorem C03_client_chunked : forall tp chunks rest,
+  task_clean tp -> Forall (fun h => no_colon (fst h)) (t_rh tp) ->
+  has_body tp = true -> te_fields tp = [client_field f_chunked] ->
+  parse_one false (head_text tp ++ encode_chunked chunks ++ rest)
+  = Some (mkResponse (first_line tp) (map client_field (sort_hdrs (t_rh tp))) FChunked (concat chunks), rest).
+Proof. exact parse_chunked. Qed.
+Print Assumptions C03_client_chunked.
+
+Theorem C03_client_eof : forall tp body,
+  task_clean tp -> Forall (fun h => no_colon (fst h)) (t_rh tp) ->
+  has_body tp = true -> te_fields tp = [] -> cl_fields tp = [] ->
+  parse_one false (head_text tp ++ body)
+  = Some (mkResponse (first_line tp) (map client_field (sort_hdrs (t_rh tp))) FEof body, []).
+Proof. exact parse_eof. Qed.
+Print Assumptions C03_client_eof.
+
+Theorem C03_client_nobody : forall tp is_head rest,
+  task_clean tp -> Forall (fun h => no_colon (fst h)) (t_rh tp) ->
+  is_head = true \/ has_body tp = false ->
+  parse_one is_head (head_text tp ++ rest)
+  = Some (mkResponse (first_line tp) (map client_field (sort_hdrs (t_rh tp))) FNoBody [], rest).
+Proof. exact parse_nobody. Qed.
+Print Assumptions C03_client_nobody.
+
+(* frame, end to end through HTTPChannel.service, for plain applications without a
+   declared length (one start_response without Content-Length, header names that
+   play no part in framing, a generator or a sized iterable of any number <> 1 of
+   chunks, empty ones included, non-HEAD, status with a body, client connected,
+   nothing raised): the client recovers the status line, every application field
+   (name normalised in letter case, value OWS-stripped) and exactly the
+   concatenation of the application's chunks -- chunked on HTTP/1.1, close-delimited
+   on HTTP/1.0 --, the head says "Connection: close" and the connection is closed. *)
+Theorem C03_frame_partial : forall c r status hs kind chunks hc,
+  cfg_clean c ->
+  r_error r = None -> is_file kind = false -> len1 kind = false -> Forall (not_cl py_lower) hs ->
+  plain_fields py_cap (strs_of hs) ->
+  r_head r = false ->
+  startswith status (lit "1") || startswith status (lit "204") || startswith status (lit "304") = false ->
+  let res := run_task c r (simple_app status hs kind chunks hc) None in
+  o_raw res = None ->
+  exists sl fields,
+    parse_one false (wire (o_writes res))
+    = Some (mkResponse sl fields
+                       (if beqb (r_version r) (lit "1.1") then FChunked else FEof) (concat chunks), [])
+    /\ sl = lit "HTTP/" ++ (if beqb (r_version r) (lit "1.1") then lit "1.1" else lit "1.0") ++ [32] ++ status
+    /\ (forall h, In h (strs_of hs) -> In (client_field (norm_field py_cap h)) fields)
+    /\ In (client_field f_close) fields
+    /\ o_close res = true /\ o_next res = false.
+Proof.
+  exact (fun c r status hs kind chunks hc Hc =>
+           frame_nolen py_cap py_lower py_cap_clean py_cap_te c Hc r status hs kind chunks hc).
+Qed.
+Print Assumptions C03_frame_partial.
+
+(* The full statement is false of the faithful model in three classes. *)
+Theorem C03_head_chunked_refuted :
+  let res := run_task sample_cfg head_req empty_app None in
+  exists resp, parse_stream [true] (wire (o_writes res)) = ([resp], chunk_terminator)
+               /\ rs_framing resp = FNoBody
+               /\ In (te_name, chunked_tok) (map (fun f => (lower_ascii (fst f), snd f)) (rs_fields resp)).
+Proof. exact head_chunked_leftover. Qed.
+Print Assumptions C03_head_chunked_refuted.
+
+Theorem C03_error_keepalive_refuted :
+  let res := run_task sample_cfg ka10_req failing_app None in
+  exists resp, parse_stream [false] (wire (o_writes res)) = ([resp], [])
+               /\ In (lit "Connection", lit "close") (rs_fields resp)
+               /\ In (lit "Connection", lit "Keep-Alive") (rs_fields resp)
+               /\ o_close res = true.
+Proof. exact error_both_connection_fields. Qed.
+Print Assumptions C03_error_keepalive_refuted.
+
+Theorem C03_write_then_file_refuted :
+  let res := run_task sample_cfg sample_req write_then_file_app None in
+  o_raw res = None /\ o_handover res = true
+  /\ parse_stream [false] (wire (o_writes res)) = ([], wire (o_writes res)).
+Proof. exact write_then_file_unparsable. Qed.
+Print Assumptions C03_write_then_file_refuted.
